@@ -1,0 +1,14 @@
+//go:build !verif
+
+// Package verifhook provides yield points and counters for the external
+// verification harness. With the "verif" build tag off every function is an
+// empty, inlinable no-op.
+package verifhook
+
+import "context"
+
+// Point is a no-op without the verif build tag.
+func Point(context.Context, string) {}
+
+// Count is a no-op without the verif build tag.
+func Count(string) {}
